@@ -1,16 +1,19 @@
 import SockModel.Drive.Common
 import SockModel.Model.SendLoop
 import SockModel.Spec.C01
+import SockModel.Spec.C16
 /-! Driver for C01 / C07 / C16 (blocking socket layer): trace validation.  The harness reports
 every intercepted system call on the socket under test with its result (`-> sys ...`); the driver
 feeds exactly those answers to the model operation and requires the model to make the same calls
 with the same arguments and to return the same result (correspondence).  The property predicates
 are evaluated on the observations alone.
 
-The C01 predicate is NOT in this file: every transcript block is parsed into one typed `Spec.C01.Obs`
-and judged by `Spec.C01.specStep` (proved in `Spec/C01.lean` to accept every trace of the model:
-`model_satisfies_spec`).  What stays here: parsing, the correspondence pass, the tags, and the timeout /
-signal clauses of the modes C07s and C16 (`specTimeouts`, `specC0716`). -/
+No property predicate is in this file: every transcript block is parsed into one typed `Spec.C01.Obs`
+and judged by `Spec.C01.specStep` (mode C01), `Spec.C07.specStepM` with the mode flag c07 (mode C07s:
+`Spec.C07.specStep`) or c16 (mode C16: `Spec.C16.specStep`); a `Step` under injected EINTR (mode C16step) is
+parsed into a `Spec.C16.StepObs` and judged by `Spec.C16.specStepE`.  All of them are proved to accept every
+trace of the model (`model_satisfies_spec` in `Spec/C01.lean`, `Spec/C07.lean`, `Spec/C16.lean`).  What stays
+here: parsing, the correspondence pass, the tags. -/
 namespace SockModel.Drive.C01
 open SockModel SockModel.Drive SockModel.SendLoop SockModel.Deadline
 open SockModel.Spec.C01 (RecvObs SysObs Thrown Tok Ret OpObs Obs SpecSt fnv fnvHex fnvStep fnvInit
@@ -119,30 +122,6 @@ def retListen (ret : List String) : Ret :=
 
 def tokOf (s : String) : Tok := match s.toNat? with | some n => .num n | none => .text s
 
-/-! ### C07 / C16 on observations (modes C07s, C16) -/
-
-/-- the poll timeouts the library passed, against the operation's timeout -/
-def specTimeouts (T : Int) (sys : List SysObs) (nothing : Bool) : Option String := Id.run do
-  let mut elapsed : Int := 0
-  for s in sys do
-    match s with
-    | .poll t a =>
-      if T < 0 ∧ t ≥ 0 then return some s!"unlimited operation issued a poll with timeout {t}"
-      if T = 0 ∧ t ≠ 0 then return some s!"zero-timeout operation issued a poll with timeout {t} (blocks)"
-      if T > 0 ∧ (t < 0 ∨ t > T - elapsed) then
-        return some s!"operation with timeout {T} issued poll({t}) after {elapsed} ms: over budget"
-      match a with
-      | .ready d => elapsed := elapsed + (if t ≥ 0 ∧ (d : Int) > t then t else d)
-      | .eintr d => elapsed := elapsed + (if t ≥ 0 ∧ (d : Int) > t then t else d)
-      | .timedOut => elapsed := elapsed + (if t > 0 then t else 0)
-      | .fail _ => pure ()
-    | _ => pure ()
-  if T < 0 ∧ nothing then return some "operation with unlimited timeout returned 'nothing'"
-  if T > 0 ∧ nothing ∧ elapsed < T then return some s!"returned 'nothing' after {elapsed} ms, earlier than its timeout {T}"
-  if T > 0 ∧ elapsed > T then return some s!"blocked {elapsed} ms in total, longer than its timeout {T}"
-  if T = 0 ∧ elapsed ≠ 0 then return some "zero-timeout operation let time pass"
-  return none
-
 def resStr {α} (f : α → String) : Res α → String
   | .ok v => "ret " ++ f v
   | .exn (.system e) => s!"throw system {e}"
@@ -166,59 +145,12 @@ structure Mode where
   c07 : Bool
   c16 : Bool
 
-/-- the clauses of the modes C07s / C16 for one operation -/
-def specC0716 (md : Mode) (sys : List SysObs) : OpObs → Option String :=
-  let tmo (T : Int) (nothing : Bool) : Option String :=
-    if md.c07 ∨ (md.c16 ∧ hasEintr sys) then specTimeouts T sys nothing else none
-  let sig (what : String) (x : Thrown) (logicOk : Bool) : Option String :=
-    if md.c16 ∧ hasEintr sys ∧ !hasPollFail sys ∧ !hasIoFail sys ∧ !(logicOk ∧ x = .logic) then
-      some s!"a signal made {what} fail: {x.text}" else none
-  fun
-  | .send _ T r =>
-    match r with
-    | .count _ => tmo T false
-    | .bad => some "bad ret"
-    | .threw x => sig "Send" x true
-    | _ => some "missing result"
-  | .recv _ T r =>
-    match r with
-    | .none => tmo T true
-    | .data (some _) _ => tmo T false
-    | .data none _ => some "bad ret"
-    | .threw .closed => none
-    | .threw x => sig "Receive" x false
-    | _ => some "missing result"
-  | .sendto data T r =>
-    match r with
-    | .count n => tmo T (n = 0 ∧ data.length > 0 ∧ !(anySend sys))
-    | .bad => some "bad ret"
-    | .threw x => sig "SendTo" x true
-    | _ => some "missing result"
-  | .recvfrom _ T r =>
-    match r with
-    | .none => tmo T true
-    | .data _ _ => tmo T false
-    | .threw x => sig "ReceiveFrom" x false
-    | _ => some "missing result"
-  | .listen T r =>
-    match r with
-    | .none => tmo T true
-    | .count _ => tmo T false
-    | .threw x => sig "Listen" x false
-    | _ => some "missing result"
-  | _ => none
-
-/-- the property predicate of the mode on one transcript block -/
+/-- the property predicate of the mode on one transcript block (`Spec/C01.lean`, `Spec/C07.lean`, `Spec/C16.lean`) -/
 def judge (md : Mode) (sp : SpecSt) (o : Obs) : Except String SpecSt :=
   if md.c01 then specStep sp o
-  else
-    match o.op with
-    | .abort msg => .error msg
-    | op =>
-      if nosigBad o.sys then .error "a send() without MSG_NOSIGNAL"
-      else match specC0716 md o.sys op with
-        | some m => .error m
-        | none => .ok sp
+  else match Spec.C07.specStepM { c07 := md.c07, c16 := md.c16 } () o with
+    | .ok _ => .ok sp
+    | .error m => .error m
 
 partial def go (md : Mode) (s : St) : List String → Verdict
   | [] => { tags := s.tags }
@@ -375,9 +307,6 @@ partial def goStep (tags : List String) : List String → Verdict
       | some T =>
         let obsLines := (rest.takeWhile (fun x => (obs? x).isSome)).filterMap obs?
         let rest' := rest.dropWhile (fun x => (obs? x).isSome)
-        match obsLines.find? (fun o => o.head? == some "crash" ∨ o.head? == some "hang" ∨ o.head? == some "throw") with
-        | some o => Verdict.spec ("a signal made Step fail: " ++ " ".intercalate o) tags
-        | none =>
         let polls : List (Int × PollAns) := obsLines.filterMap fun o =>
           match o with
           | ["poll", ms, _, res, adv] =>
@@ -388,23 +317,15 @@ partial def goStep (tags : List String) : List String → Verdict
           | _ => none
         let beginT := (obsLines.find? (fun o => o.head? == some "begin")).bind fun o => (o.getD 1 "").toInt?
         let endT := (obsLines.find? (fun o => o.head? == some "end")).bind fun o => (o.getD 1 "").toInt?
-        let os : Os := { polls := polls.map (·.2) }
-        let (r, os') := wait T os
-        let hadEintr := polls.any fun p => match p.2 with | .eintr _ => true | _ => false
-        -- property: the step keeps waiting within its timeout semantics
-        let specMsg : Option String :=
-          match specTimeouts T (polls.map fun p => SysObs.poll p.1 p.2) (match r with | .ok false => true | _ => false) with
-          | some m => some m
-          | none =>
-            match beginT, endT with
-            | some b, some e =>
-              if T > 0 ∧ polls.all (fun p => match p.2 with | .ready _ => false | _ => true) ∧ e - b < T * nsPerMs then
-                some s!"Step({T}) returned after {(e - b) / nsPerMs} ms although nothing happened (a signal cut the wait short)"
-              else none
-            | _, _ => some "missing begin/end"
-        match specMsg with
+        let failed := (obsLines.find? (fun o => o.head? == some "crash" ∨ o.head? == some "hang" ∨ o.head? == some "throw")).map
+          (" ".intercalate ·)
+        -- property (`Spec/C16.lean`): the step keeps waiting within its timeout semantics
+        match Spec.C16.specStepE { T := T, failed := failed, polls := polls, begin := beginT, fin := endT } with
         | some m => Verdict.spec m tags
         | none =>
+          let os : Os := { polls := polls.map (·.2) }
+          let (_, os') := wait T os
+          let hadEintr := polls.any fun p => match p.2 with | .eintr _ => true | _ => false
           if pollArgs os' ≠ polls.map (·.1) then Verdict.corr s!"'{l}': poll timeouts {polls.map (·.1)} differ from the model's {pollArgs os'}" tags
           else if !os'.polls.isEmpty then Verdict.corr s!"'{l}': implementation issued more polls than the model" tags
           else goStep ((if hadEintr then ["eintr", "step.eintr"] else ["step"]) ++ tags) rest'
